@@ -74,6 +74,8 @@ func exec(line string) (*res, error) {
 		return caseFromExt(args)
 	case "plain":
 		return casePlain(args)
+	case "slplain":
+		return caseSlPlain(args)
 	case "slenc":
 		return caseSlEnc(args)
 	case "slread":
@@ -110,7 +112,7 @@ func (g *gen) add(line string) {
 // Gen writes the run for the given tier.
 func Gen(run *vlib.Run, seed uint64, tier string) {
 	run.Rule = "tbl: at least one set followed by get or keys; nenc: at least one record expected; " +
-		"ndec: every case; otf/fromext: every case; slenc: at least two language systems; slread: every case; " +
+		"ndec: every case; otf/fromext/plain: every case; slplain: at least two keys; slenc: at least two language systems; slread: every case; " +
 		"distinct by case line"
 	g := &gen{run: run, tier: tier}
 	r := vlib.NewRand(seed)
